@@ -61,7 +61,7 @@ CELLS = [0, 1]            # 0: state of \ifqq   1: counter qc
 OTYPES = [('qenv', 'env', 0, []), ('qcmd', 'cmd', 0, []), ('endqenv', 'cmd', 0, []), ('qdoc', 'env', 1, []), ('qenvl', 'env', 0, [(0, 900)])]
 NAPI = len(OTYPES)
 # classes of the real constructs used at program level (only their identity/class/mode matters to Context.pop)
-PKINDS = ['center', 'quote', 'flushleft', 'sloppypar', 'sloppy', 'samepage', 'qunknownenv', 'itemize', 'math', 'displaymath', 'tabular', 'textbf', 'emph', 'mbox', 'footnote', 'underline',
+PKINDS = ['verbatim', 'center', 'quote', 'flushleft', 'sloppypar', 'sloppy', 'samepage', 'qunknownenv', 'itemize', 'math', 'displaymath', 'tabular', 'textbf', 'emph', 'mbox', 'footnote', 'underline',
           'ArgumentContext']
 OTYPES = OTYPES + [(k, 'x', 0, []) for k in PKINDS]
 PT = dict((k, NAPI + i) for i, k in enumerate(PKINDS))
@@ -587,8 +587,10 @@ def number_envs(items, acc):
 
 def print_item(it):
     k = it[0]
-    if k in ('def', 'gdef'):
+    if k in ('def', 'gdef', 'edef', 'xdef'):       # \edef is the local twin of \def, \xdef the global one of \gdef
         return '\\%s\\%s{\\logv{%d}}' % (k, NAMES[it[1]], it[2])
+    if k == 'verbcmd':      # command form of the verbatim environment: \verbatim ... \endverbatim
+        return '\\verbatim x%%y\\endverbatim '
     if k == 'newcommand':
         return '\\newcommand{\\%s}{\\logv{%d}}' % (NAMES[it[1]], it[2])
     if k == 'let':
@@ -694,10 +696,15 @@ def compile_prog(case):
 
     def item(it, depth):
         k = it[0]
-        if k == 'def':
+        if k in ('def', 'edef'):
             ops.append(['addl', it[1], it[2]])
-        elif k in ('gdef', 'newcommand'):
+        elif k in ('gdef', 'xdef', 'newcommand'):
             ops.append(['addg', it[1], it[2]])
+        elif k == 'verbcmd':       # VerbatimEnvironment.invoke: push(self); setVerbatimCatcodes(); read to \endverbatim; pop(self)
+            o = newobj('verbatim', 0)
+            ops.append(['push', o])
+            ops.append(['verb'])
+            ops.append(['pop', o])
         elif k == 'let':
             ops.append(['letm', it[1], it[2]])
         elif k == 'lettok':
@@ -933,9 +940,9 @@ class PGen(object):
         rng = self.rng
         r = rng.random()
         if r < 0.2:
-            return ['def', rng.choice([0, 0, 1]), self.fresh()]
+            return [rng.choice(['def', 'def', 'edef']), rng.choice([0, 0, 1]), self.fresh()]
         if r < 0.3:
-            return ['gdef', rng.choice([0, 1, 1]), self.fresh()]
+            return [rng.choice(['gdef', 'gdef', 'xdef']), rng.choice([0, 1, 1]), self.fresh()]
         if r < 0.34:
             return ['newcommand', rng.choice([0, 1]), self.fresh()]
         if r < 0.42:
@@ -960,6 +967,8 @@ class PGen(object):
             return ['use', rng.choice([0, 1, 1, 6])]
         if r < 0.93:
             return ['gnondef', 'relax']
+        if r < 0.95 and getattr(self, 'verb_ok', True):
+            return ['verbcmd']
         return ['probe']
 
     def items(self, depth, in_math, in_arg, alias_visible, n=None):
@@ -971,6 +980,8 @@ class PGen(object):
                 out += self.group(depth, in_math, in_arg, alias_visible)
             else:
                 it = self.simple(not alias_visible)
+                if it[0] == 'verbcmd' and in_arg:      # verbatim text cannot be read inside an argument (already tokenized)
+                    it = ['probe']
                 if it[0] == 'lettok':
                     alias_visible = True
                 out.append(it)
@@ -981,6 +992,8 @@ class PGen(object):
         out = []
         for _ in range(n):
             it = self.simple(False)
+            if it[0] == 'verbcmd':
+                it = ['probe']
             out.append(it)
         return out
 
@@ -1027,6 +1040,7 @@ def rand_prog(rng):
 def rand_loose(rng):
     """an environment closed over an unclosed group / a group closed over an unclosed environment"""
     g = PGen(rng, 2)
+    g.verb_ok = False       # these programs may be wrapped in an argument afterwards
     env = rng.choice(ENVS)
     form = rng.choice(['loose-env', 'loose-grp'])
     outer = rng.choice(['none', 'brace', 'textbf', 'center'])
@@ -1048,6 +1062,9 @@ def small_progs():
     pre = [['def', 0, 90], ['gdef', 1, 91], ['probe']]
     post = [['use', 0], ['use', 1], ['probe']]
     changes += [[['cat', 64, 11, ' ']], [['def', 0, 1], ['cat', 33, 13, ' ']]]
+    # \xdef is a global definition, \edef a local one; the command form \verbatim ... \endverbatim is a balanced push/pop
+    changes += [[['xdef', 0, 1]], [['edef', 0, 1]], [['def', 0, 1], ['xdef', 1, 2], ['edef', 1, 3]], [['verbcmd']],
+                [['def', 0, 1], ['verbcmd'], ['cat', 64, 11, 'relax']]]
     # \global is a one-shot prefix: after \global<not a definition> the adjacent \def / \let is local
     changes += [[['gnondef', 'relax'], ['def', 0, 1]], [['gnondef', 'relax'], ['let', 1, 0]],
                 [['newif'], ['gnondef', 'iftrue'], ['def', 0, 1]], [['newcounter'], ['gnondef', 'setcounter', 2], ['let', 1, 0]],
@@ -1073,9 +1090,11 @@ def small_progs():
                         yield dict(kind='prog', prog=pre + [['grp', outer, [['def', 0, 80], ['cat', 64, 11, 'relax'], env, ['use', 0], ['probe']]]] + post)
     for ch in changes:
         for kind in kinds:
+            if ['verbcmd'] in ch and kind in CMDS:
+                continue            # no verbatim text inside an argument
             yield dict(kind='prog', prog=pre + [['grp', kind, ch + [['use', 0], ['probe']]]] + post)
             for kind2 in ['brace', 'center', 'math', 'textbf', 'sloppypar', 'qunknownenv']:
-                if kind in MATHS and kind2 == 'math':
+                if (kind in MATHS and kind2 == 'math') or (['verbcmd'] in ch and kind2 == 'textbf'):
                     continue
                 yield dict(kind='prog', prog=pre + [['grp', kind, [['grp', kind2, ch + [['probe']]], ['use', 0], ['probe']]]] + post)
         yield dict(kind='prog', prog=pre + [['tabular', [[ch + [['probe']], [['use', 0], ['probe']]], [[['probe']], ch + [['probe']]]]]] + post)
@@ -1127,6 +1146,7 @@ def rand_charlet(rng):
 def rand_gprefix(rng):
     """\\global\\def, \\global\\long\\def, \\global\\let inside groups (the \\global prefix, notes/C04/fix-1.diff)"""
     g = PGen(rng, 2)
+    g.verb_ok = False
     kind = rng.choice(['brace', 'begingroup', 'center', 'math', 'textbf', 'tabular'])
     r = rng.random()
     if rng.random() < 0.35:     # \global<non-definition> directly followed by a local \def / \let
